@@ -73,6 +73,9 @@ proof! {
 			let (c2, v2, r2) = k::any_elem();
 			let (ck, vk, rk) = k::any_elem();
 			let off: u16 = nd::any();
+			// the offset may also be a byte string that is not a valid scalar (it comes off the
+			// wire unvalidated): then validation must fail, not silently ignore the offset
+			let off_invalid: bool = nd::any();
 			let overage: i64 = nd::any();
 			nd::assume(overage > -(1 << 40) && overage < (1 << 40));
 			let body = TransactionBody {
@@ -83,13 +86,18 @@ proof! {
 				],
 				kernels: vec![TxKernel { features: KernelFeatures::Plain { fee: k::fee_fields(1, 0) }, excess: ck, excess_sig: k::sig(true) }],
 			};
-			let offset = BlindingFactor::from_secret_key(m::key_of(off));
+			let mut ob = m::key_of(off).0;
+			if off_invalid {
+				ob[31] = m::INVALID_KEY_MARK;
+			}
+			let offset = BlindingFactor::from_slice(&ob);
 			let r = body.verify_kernel_sums(overage, offset);
 			let ov = overage as u16; // two's complement: adding a negative overage = subtracting
 			let lhs_v = v1.wrapping_add(v2).wrapping_sub(vi).wrapping_add(ov);
 			let lhs_r = r1.wrapping_add(r2).wrapping_sub(ri);
 			let eq = lhs_v == vk && lhs_r == rk.wrapping_add(off);
-			check!(r.is_ok() == eq, "verify_kernel_sums accepts exactly when the balance equation holds");
+			check!(r.is_ok() == (eq && !off_invalid), "verify_kernel_sums accepts exactly when the balance equation holds and the offset is a valid scalar");
+			cover!(off_invalid && r.is_err(), "non-scalar offset refused");
 			cover!(r.is_ok(), "accepted");
 			cover!(r.is_err(), "rejected");
 			core::mem::forget(r);
